@@ -279,12 +279,6 @@ def protEq : Rel where
   refl _ := rfl
   trans _ _ _ h1 h2 := h2.trans h1
 
-def safeCallee (cfg : Cfg) : Callee → Bool
-  | .native n => match cfg.native n with
-    | some f => f.safe
-    | none => false
-  | .script _ => false
-
 /-- Every entry of the call log is old or a native flagged side-effect free. -/
 def callsOk (cfg : Cfg) : Rel where
   r a b := ∀ c ∈ b.calls, c ∈ a.calls ∨ safeCallee cfg c = true
